@@ -9,14 +9,17 @@ chunk.  The recorded total order of events is checked by an independent PEP 3333
 validator plus the hook/close/Content-Length clauses of the property.
 """
 import random
+import threading
 
 from ..core import new_result, violation, Log, hx, unhx, digest
 from ..wsgi import make_environ, call_app, validate
 from .. import shrink
+from .. import twin
 
 PROP = 'C03'
 LEVEL = 'exploration'
-BATCH = 300
+BATCH = 150
+RUN_TIMEOUT = 3      # wall-clock watchdog: a request that is never answered (e.g. an endless cast loop)
 TIERS = {
     'quick': {'runs': 900000, 'budget': 35},
     'thorough': {'runs': 8_000_000, 'budget': 480},
@@ -125,7 +128,7 @@ def gen_headers(rng):
     return out
 
 
-def gen_case(rng, tier):
+def _gen_case(rng, tier):
     case = {
         'method': rng.choice(METHODS),
         'path': rng.choice(['hit', 'hit', 'hit', 'hit', 'miss', 'wrong_method']),
@@ -159,7 +162,9 @@ def gen_case(rng, tier):
         else:
             case['mutations'].append(['cookie', rng.choice(['sid', 'c2']), rng.choice(['v1', 'a b', 'ünï'])])
     for code in rng.sample([404, 405, 500, 418, 400, 413], rng.choice([0, 0, 1, 2])):
-        case['error_handlers'].append([code, rng.choice(['str', 'bytes', 'list', 'empty'])])
+        case['error_handlers'].append([code, rng.choice(['str', 'bytes', 'list', 'empty', 'str', 'bytes', 'list', 'empty', 'cycle'])])
+    if case['before'] and case['path'] != 'miss' and rng.random() < 0.12:
+        case['rewrite'] = rng.choice(['path', 'method'])
     if rng.random() < 0.5:
         sites = ['handler', 'gen_first_next']
         sites += [f'before:{j}' for j in range(case['before'])]
@@ -169,6 +174,10 @@ def gen_case(rng, tier):
             sites.append('error_handler')
         case['fault'] = {'at': rng.choice(sites), 'exc': rng.choice(EXCS)}
     return case
+
+
+def gen_case(rng, tier):
+    return twin.maybe_wrap(rng, _gen_case(rng, tier), 0.04, est_steps=700)
 
 
 def summarise(case):
@@ -306,10 +315,12 @@ def build(spec, ctx, label='r'):
         if spec['bad'] == 'json':
             return repr(rq.json)
         return rq.body.read()
+    sfx = getattr(ctx, 'suffix', '')
     if k == 'str':
-        return spec['v']
+        return spec['v'] + sfx if spec['v'] else spec['v']
     if k == 'bytes':
-        return unhx(spec['v'])
+        b = unhx(spec['v'])
+        return b + sfx.encode() if b else b
     if k == 'empty':
         return {'none': None, 'str': '', 'bytes': b'', 'list': [], 'zero': 0, 'false': False, 'tuple': (), 'dict': {}}[spec['v']]
     if k == 'unsupported':
@@ -322,7 +333,7 @@ def build(spec, ctx, label='r'):
         conv = (lambda s: s) if spec['item'] == 'str' else (lambda s: s.encode('utf8'))
         empty = '' if spec['item'] == 'str' else b''
         empties = [empty, None, empty] if spec.get('mixed_empty') else [empty] * 3
-        items = empties[:spec['lead']] + [conv(s) for s in spec['items']]
+        items = empties[:spec['lead']] + [conv(s + sfx) for s in spec['items']]
         t = spec['type']
         if t == 'list':
             return items
@@ -358,27 +369,40 @@ def build(spec, ctx, label='r'):
     raise AssertionError(k)
 
 
-def run_case(case):
+_TL = threading.local()
+
+
+def _cur():
+    """The per-thread context of the request being served (twin runs serve one program on several threads)."""
+    return _TL.ctx
+
+
+def setup_app(case):
+    """Application with the program's callbacks; the callbacks find their per-request context through _cur()."""
     import ombott
-    res = new_result()
-    log = Log(case.get('_seed'))
-    events = []
-    ctx = Ctx(case, events)
     app = ombott.Ombott()
     resp_obj = app.response
 
     for j in range(case['before']):
         def bh(j=j):
-            events.append(('before', j))
+            ctx = _cur()
+            ctx.ev.append(('before', j))
+            if j == 0 and case.get('rewrite'):
+                # a before-request hook that routing depends on (prefix stripping / method override)
+                if case['rewrite'] == 'path':
+                    app.request['PATH_INFO'] = '/r/sub'
+                else:
+                    app.request['REQUEST_METHOD'] = case['method']
             ctx.maybe_fault(f'before:{j}')
         app.add_hook('before_request', bh)
     for j in range(case['after']):
         def ah(j=j):
-            events.append(('after', j))
+            _cur().ev.append(('after', j))
         app.add_hook('after_request', ah)
 
     def handler():
-        events.append(('handler',))
+        ctx = _cur()
+        ctx.ev.append(('handler',))
         for m in case['mutations']:
             if m[0] == 'status':
                 resp_obj.status = m[1]
@@ -397,17 +421,44 @@ def run_case(case):
     app.route('/r/sub', method=route_methods, callback=handler)
     if case['route_hook']:
         def rh(prefix):
-            events.append(('route_hook', prefix))
+            ctx = _cur()
+            ctx.ev.append(('route_hook', prefix))
             ctx.maybe_fault('route_hook')
         app.on_route('/r', rh)
     for code, kind in case['error_handlers']:
         def eh(err, code=code, kind=kind):
-            events.append(('error_handler', code))
+            import ombott as _o
+            ctx = _cur()
+            ctx.ev.append(('error_handler', code))
             ctx.maybe_fault('error_handler')
+            if kind == 'cycle':
+                return _o.HTTPError(code, 'again')     # a response cycle: only the cast loop's guard ends it
             return {'str': f'custom {code}', 'bytes': b'custom', 'list': ['cus', 'tom'], 'empty': ''}[kind]
         app.error(code)(eh)
+    if case['result']['k'] == 'read_body':
+        app.setup({'max_body_size': 100})
+    return app
 
+
+def run_case(case):
+    if 'twin' in case:
+        box = []
+        return twin.run(lambda inner, i: serve_and_check(inner, box[0], 'Zz' * i), case, shared_bodyreq=False,
+                        before=lambda: box.append(setup_app(case['twin'])),
+                        step_cap=1_500_000, cap_violation='C03:no-answer')
+    return serve_and_check(case, setup_app(case), '')
+
+
+def serve_and_check(case, app, suffix):
+    res = new_result()
+    log = Log(case.get('_seed'))
+    events = []
+    ctx = Ctx(case, events)
+    ctx.suffix = suffix
+    _TL.ctx = ctx
     path = '/nowhere' if case['path'] == 'miss' else '/r/sub'
+    if case.get('rewrite') == 'path' and case['path'] != 'miss':
+        path = '/alias/of/it'
     ctx.app = app
 
     def environ(query, accept_json):
@@ -421,11 +472,13 @@ def run_case(case):
                 kw = {'stream': io.BytesIO(b'z' * 300), 'content_length': 300}
             else:
                 kw = {'stream': io.BytesIO(b'{"a": ]'), 'content_length': 7, 'content_type': 'application/json'}
-        return make_environ(case['method'], path, query, file_wrapper=(FakeFileWrapper if case['file_wrapper'] else None),
+        method = case['method']
+        if case.get('rewrite') == 'method':
+            method = 'TRACE'        # the before-request hook puts the real method back before routing
+        return make_environ(method, path, query + suffix, file_wrapper=(FakeFileWrapper if case['file_wrapper'] else None),
                             headers=({'Accept': 'application/json'} if accept_json else None), **kw)
 
     if case['result']['k'] == 'read_body':
-        app.setup({'max_body_size': 100})
         if case.get('prime'):
             saved_fault, ctx.fault = ctx.fault, None
             call_app(app, environ(case['prime']['query'], case['prime']['accept_json']))
@@ -471,6 +524,9 @@ def run_case(case):
             want = {int(exc.split(':')[1])}
         else:
             want = {500}
+        cyc = {c for c, kind in case['error_handlers'] if kind == 'cycle'}
+        if want is not None and any(e[0] == 'error_handler' and e[1] in cyc for e in events):
+            want = want | {500}      # a response cycle ends in the cast loop's own 500
         if want is not None and code not in want:
             violation(res, 'C03:fault-status', f'{exc} injected at {fault["at"]} answered {r.status!r}, expected {sorted(want)}')
     # ---- hooks ----
@@ -499,6 +555,11 @@ def run_case(case):
     if 'start_response' in names and 'after' in names:
         if max(i for i, n in enumerate(names) if n == 'after') > names.index('start_response'):
             violation(res, 'C03:hook-order', 'an after_request hook ran after start_response')
+    blocked = ctx.fault_raised and (fault['at'].startswith('before:') or fault['at'] == 'route_hook')
+    if case['path'] == 'hit' and not blocked and r.escaped is None and 'handler' not in names:
+        violation(res, 'C03:handler-not-reached',
+                  f'{case["method"]} request for a registered route (rewrite by before-request hook: {case.get("rewrite")}) '
+                  f'was answered {r.status!r} without the handler running: hooks did not run before routing')
     if names.count('handler') > 1:
         violation(res, 'C03:handler-twice', 'handler invoked more than once')
     # ---- close: an iterable that produced output is closed exactly once ----
@@ -559,6 +620,13 @@ def _depth(spec):
 
 
 def shrink_candidates(case):
+    if 'twin' in case:
+        yield from twin.shrink_candidates(case, shrink_candidates)
+        return
+    if case.get('rewrite'):
+        c = dict(case)
+        c.pop('rewrite')
+        yield c
     if case['fault'] is not None:
         yield dict(case, fault=None)
     if case['stop_after'] is not None:
@@ -600,3 +668,7 @@ def shrink_candidates(case):
         yield dict(case, result={'k': 'str', 'v': 'x'})
     if case.get('fault') and case['fault']['exc'] != 'ValueError':
         yield dict(case, fault=dict(case['fault'], exc='ValueError'))
+
+
+def setup_worker():
+    twin.warm(_gen_case, lambda c: serve_and_check(c, setup_app(c), ''), n=150)
